@@ -68,6 +68,19 @@ Proof. vm_compute. repeat split; reflexivity. Qed.
 Theorem C16_integer_to_hex_roundtrip : forall n a, 1 <= n -> 0 <= a < 2 ^ n -> parse_int (int_hex_string n a) = Some a.
 Proof. exact parse_int_hex_string. Qed.
 Print Assumptions C16_integer_to_hex_roundtrip.
+(* posit: parse (hex_format p) = p for every width up to 64 bits -- posit_parse transcribes the branch of parse() taken when the text
+   matches the posit pattern: field splitting, the decimal width prefix, std::hex extraction with its optional 0x, the shift for a
+   wider prefix, setbits *)
+Theorem C16_posit_hex_roundtrip : forall n es a, 1 <= n <= 64 -> 0 <= es <= 9 -> 0 <= a < 2 ^ n ->
+  posit_parse n (posit_hex_string n es a) = Some a.
+Proof. exact posit_parse_hex_format. Qed.
+Print Assumptions C16_posit_hex_roundtrip.
+Example C16_posit_parse_forms :
+  posit_parse 8 [56; 46; 48; 120; 52; 48] = Some 0x40 /\                           (* "8.0x40": no inner 0x, no p *)
+  posit_parse 8 (posit_hex_string 16 1 0x4000) = Some 0x40 /\                      (* wider prefix: the top bits are taken *)
+  posit_parse 8 [56; 46; 48; 120; 122] = Some 0 /\                                 (* "8.0xz": no hexit, the extraction yields 0 *)
+  posit_parse 8 [56; 48; 120; 52; 48] = None.                                      (* "80x40": not the posit form *)
+Proof. vm_compute. repeat split; reflexivity. Qed.
 Example C16_strings_witness :
   posit_hex_string 8 0 0x40 = [56; 46; 48; 120; 48; 120; 52; 48; 112] /\          (* "8.0x0x40p" *)
   posit_hex_string 3 1 5 = [51; 46; 49; 120; 48; 120; 53; 112] /\                  (* "3.1x0x5p" *)
